@@ -72,7 +72,7 @@ theorem getD_setIfInBounds (a : Array ℚ) (i j : ℕ) (v : ℚ) :
     by_cases h2 : i < a.size
     · simp [h2]
     · have : a[i]? = none := by simp; omega
-      simp [h2, this]
+      simp [h2]
   · simp [h1]
 
 theorem writeLine_succ (n : ℕ) (ix : ℕ → ℕ) (v : ℕ → ℚ) (a : Array ℚ) :
@@ -133,10 +133,10 @@ theorem lineIx_inj (shape : List ℕ) (k : ℕ) (hk : k < shape.length) (i i' : 
   have e := flatIdx_inj shape _ _ (inBox_insertIdx shape i k j hk hi hj) (inBox_insertIdx shape i' k j' hk hi' hj') h
   have hlen : k ≤ i.length := by
     have := inBox_length _ _ hi
-    rw [this, List.length_eraseIdx]; split_ifs <;> omega
+    rw [this, List.length_eraseIdx]; split_ifs; omega
   have hlen' : k ≤ i'.length := by
     have := inBox_length _ _ hi'
-    rw [this, List.length_eraseIdx]; split_ifs <;> omega
+    rw [this, List.length_eraseIdx]; split_ifs; omega
   constructor
   · have := congrArg (fun l => l.eraseIdx k) e
     simpa [List.eraseIdx_insertIdx_self] using this
